@@ -150,8 +150,10 @@ def harnesses(tier: str) -> List[H]:
                 continue
             if tier == "quick":
                 modes = ["factory", "default"] if (kind in ("func", "method") and not is_async) else ["factory"]
+                if kind in ("func", "method"):
+                    modes = modes + ["falsy_factory"]
             else:
-                modes = ["factory", "default", "class", "instance"]
+                modes = ["factory", "default", "class", "instance", "falsy_factory"]
             for mode in modes:
                 name = "post_{}{}_{}".format(kind, "_async" if is_async else "", mode)
                 p0hi = 3 if kind == "func" or tier == "thorough" else 2
